@@ -383,7 +383,11 @@ def core_specs(P: str = "U", variant: int = 0) -> list[CS]:
 _CORE_CACHE: dict[tuple[str, int, bool], Universe] = {}
 
 
-def core_universe(P: str = "U", variant: int = 0, postponed: bool = False) -> Universe:
+def core_universe(P: str = "U", variant: int = 0, postponed: bool | None = None) -> Universe:
+    if postponed is None:
+        import os
+
+        postponed = os.environ.get("VERIF_POSTPONED") == "1"
     key = (P, variant, postponed)
     if key not in _CORE_CACHE:
         u = Universe(
